@@ -350,7 +350,6 @@ coap_add_token(coap_pdu_t *pdu, size_t len, const uint8_t *data) {
     coap_log_warn("coap_add_token: The token must defined first. Token ignored\n");
     return 0;
   }
-  pdu->actual_token.length = len;
   if (len < COAP_TOKEN_EXT_1B_BIAS) {
     bias = 0;
   } else if (len < COAP_TOKEN_EXT_2B_BIAS) {
